@@ -1,5 +1,6 @@
 // Unit `streams`: ExactLenStream (src/body.rs), MultipartStream (src/serving.rs), BodyStream/Body dispatch.
 // Bodies are spliced in from /repo by lib/extract.py; everything else here is specification.
+#![feature(allocator_api)]
 use vstd::prelude::*;
 use std::task::Poll;
 use std::ops::Range;
